@@ -67,6 +67,7 @@ type FuncContract struct {
 	SrcHash   string
 	Lits      map[string]*FuncContract // contracts of function literals "lit N"
 	Notes     []string
+	litNode     *ast.FuncLit
 	Reveal      []string // opaque spec functions revealed to every obligation of the function
 	Unreachable []string // substrings of panic messages assumed unreachable (listed as assumptions)
 }
@@ -74,6 +75,7 @@ type FuncContract struct {
 type SpecDecl struct {
 	Induct string // lemma: induction variable ("" = none)
 	Trig   []*SX  // lemma: trigger groups
+	Props  []string // pin: owning properties
 	Kind   string // sumfold, define, declare, axiom, ghost, lemma
 	Name   string
 	Params []QVar
@@ -98,7 +100,7 @@ type Program struct {
 
 var funcKeywords = map[string]bool{"property": true, "requires": true, "ensures": true, "modifies": true, "loop": true,
 	"invariant": true, "decreases": true, "fnparam": true, "index": true, "visited": true, "opt": true, "lit": true, "note": true, "end": true, "assume-unreachable": true, "mention": true, "reveal": true}
-var topKeywords = map[string]bool{"func": true, "assumed": true, "sumfold": true, "define": true, "declare": true, "axiom": true, "ghost": true, "function": true, "nnfold": true, "lemma": true, "opaque": true}
+var topKeywords = map[string]bool{"func": true, "assumed": true, "sumfold": true, "define": true, "declare": true, "axiom": true, "ghost": true, "function": true, "nnfold": true, "lemma": true, "opaque": true, "pin": true}
 
 func LoadProgram(repo string, patterns []string) (*Program, error) {
 	fset := token.NewFileSet()
@@ -314,7 +316,7 @@ func (p *Program) parseLines(pk *packages.Package, file string, raw []rawLine) {
 			fc.File = file
 			cur, root, curLoop, curFn = fc, fc, nil, nil
 			p.Order = append(p.Order, fc)
-		case "sumfold", "define", "declare", "axiom", "ghost", "function", "nnfold", "lemma", "opaque":
+		case "sumfold", "define", "declare", "axiom", "ghost", "function", "nnfold", "lemma", "opaque", "pin":
 			cur = nil
 			p.parseSpecDecl(pk, w, rest, l.pos)
 		default:
@@ -653,6 +655,21 @@ func (p *Program) resolveFunc(pk *packages.Package, fc *FuncContract) *types.Fun
 func (p *Program) parseSpecDecl(pk *packages.Package, kind, rest, pos string) {
 	sd := &SpecDecl{Kind: kind, Text: rest, Pkg: pk, Line: pos}
 	switch kind {
+	case "pin":
+		// pin C28 C25 :: constant-expression   (the meaning of an uninterpreted predicate is tied to a source constant)
+		j := strings.Index(rest, "::")
+		if j < 0 {
+			p.errf(pos, "bad pin %q", rest)
+			return
+		}
+		sd.Props = strings.Fields(rest[:j])
+		x, err := ParseSpecExpr(strings.TrimSpace(rest[j+2:]))
+		if err != nil {
+			p.errf(pos, "%v", err)
+			return
+		}
+		sd.Body = x
+		sd.Name = strings.TrimSpace(rest[j+2:])
 	case "lemma":
 		// lemma name(params) [induction k] :: body
 		i := strings.Index(rest, "(")
